@@ -1,0 +1,39 @@
+//go:build verif
+
+package cache
+
+import "runtime"
+
+// This file is compiled only with -tags verif.  It adds observers for the
+// verification harness and changes no existing line of the package.  The
+// signatures mention no type of this package, so that a harness can probe for
+// them with a type assertion and still build against a tree without this file.
+
+// VerifExpiration exposes the stored deadline of an item:
+// > 0 absolute deadline (UnixNano), -1 never expires, 0 produced by a zero default.
+func (it *Item[V]) VerifExpiration() int64 { return it.expiration }
+
+// VerifExpirations copies key -> stored deadline of every stored entry
+// (expired-but-unpurged ones included) under the read lock, so that it is safe
+// to call while the cleanup goroutine runs.
+func (c *Cache[K, V]) VerifExpirations() map[K]int64 {
+	c.mu.RLock()
+	defer c.mu.RUnlock()
+	out := make(map[K]int64, len(c.items))
+	for k, it := range c.items {
+		out[k] = it.expiration
+	}
+	return out
+}
+
+// VerifStop ends the cleanup goroutine of a cache created with a positive
+// cleanup interval (the same signal the finalizer sends) and clears the
+// finalizer, so that a harness creating many caches does not accumulate
+// goroutines and tickers.  It must be called at most once; the background
+// cleanup of this cache no longer runs afterwards.
+func (c *Cache[K, V]) VerifStop() {
+	if c.cleanupInt > 0 {
+		runtime.SetFinalizer(c.cache, nil)
+		c.done <- struct{}{}
+	}
+}
